@@ -9,6 +9,8 @@ import gc
 import sys
 from asyncio import events, futures
 
+from mc import runner as _runner
+
 _EPOCH = _dt.datetime(2020, 1, 1)
 
 CURRENT = None  # the VLoop of the execution in progress (one per process at a time)
@@ -94,6 +96,8 @@ class VLoop(asyncio.BaseEventLoop):
     def step(self):
         """One stock asyncio iteration (due timers -> ready; run exactly what was ready at the start)."""
         self.iterations += 1
+        if _runner.WATCHDOG_FIRED:
+            raise _runner.Watchdog('watchdog fired (seen by the loop)')
         self._run_once()
 
     def quiesce(self, cap=20000):
@@ -143,6 +147,7 @@ class VLoop(asyncio.BaseEventLoop):
         global CURRENT
         old_hook = sys.unraisablehook
         sys.unraisablehook = lambda *a, **k: None
+        fired, _runner.WATCHDOG_FIRED = _runner.WATCHDOG_FIRED, False
         try:
             for _ in range(5):
                 tasks = [t for t in asyncio.all_tasks(self) if not t.done()]
@@ -176,6 +181,7 @@ class VLoop(asyncio.BaseEventLoop):
             except BaseException:
                 pass
             sys.unraisablehook = old_hook
+            _runner.WATCHDOG_FIRED = fired
 
     def read_exc_log(self):
         gc.collect(1)
